@@ -223,7 +223,12 @@ def run_case(case):
             old_env = os.environ.get('QSTRADER_CSV_DATA_DIR')
             os.environ['QSTRADER_CSV_DATA_DIR'] = path
             try:
-                bt = q.BacktestTradingSession(s0, s1 + pd.Timedelta(days=1), q.StaticUniverse(['EQ:' + n for n in syms]),
+                # (the session's universe lists one symbol only from its last day on: the handler it builds still answers
+                # for every file of the directory, at every instant)
+                names_ = ['EQ:' + n for n in syms]
+                suni = q.DynamicUniverse({a_: (s0 if k_ else s1) for k_, a_ in enumerate(names_)}) if case.get('session_dynamic') \
+                    else q.StaticUniverse(names_)
+                bt = q.BacktestTradingSession(s0, s1 + pd.Timedelta(days=1), suni,
                                               q.FixedSignalsAlphaModel({}), rebalance='daily', long_only=True,
                                               cash_buffer_percentage=0.05)
             finally:
@@ -296,6 +301,14 @@ def cases(draw):
             random.Random(seed).shuffle(rows)
         syms[n] = rows
         span = max(span, off + nd)
+    if draw(st.sampled_from([False] * 4 + [True])):
+        # a contract that settled below zero for a day (Adj Close == Close, so the adjustment factor is 1)
+        rows_ = syms[names[0]]
+        k_ = draw(st.integers(0, len(rows_) - 1))
+        if rows_[k_][4] is not None:
+            v_ = -draw(st.sampled_from([37.63, 0.5, 2.0]))
+            rows_[k_][3:] = [v_ if rows_[k_][3] is not None else None, v_, v_]
+            flags.append('negative_settlement')
     if len(names) == 2 and len(syms[names[0]]) >= 4 and draw(st.sampled_from([False, False, True])):
         # the second symbol trades as many days as the first, from the same first to the same last date - but not
         # on the same days in between
@@ -342,7 +355,7 @@ def cases(draw):
             'cut_seed': draw(st.integers(0, 1000)), 'cut_adjust': draw(st.booleans()), 'flags': flags,
             'interleave': draw(st.lists(st.tuples(st.integers(0, 1), st.integers(0, 24), st.sampled_from([0, 1, 7, 3600, -0.000001, 0.000001, 0.25, -0.5])).map(list),
                                         min_size=6, max_size=20)) if draw(st.booleans()) else [],
-            'naive_first': draw(st.sampled_from([False, False, True])),
+            'naive_first': draw(st.sampled_from([False, False, True])), 'session_dynamic': draw(st.booleans()),
             'all_files': draw(st.sampled_from([False, False, True])), 'session_built': draw(st.sampled_from([False, False, True])),
             'zones': draw(st.lists(st.sampled_from([None, None, 'Europe/Berlin', 'America/New_York', 'Asia/Tokyo']), min_size=1, max_size=5))}
 
